@@ -1,4 +1,114 @@
-import SfxModel.Transcendental
+import SfxProofs.Log
+import SfxProofs.Exp
+import SfxProofs.Trig
+import SfxProps.C13
+/-
+  C12 — Result-returning math functions are total: Ok or Err, never a panic.
+  `Total o` : the call returns (`Ok` or `Err`) in every build profile: no panic, and no debug-only check fires (`dbg = false`).
+  Supported destinations (the property's quantifier): signed, at least 23 fractional bits and 9 integer bits (sign included);
+  sqrt also for unsigned destinations (through C13).  `S = D`; the widening pairs `From<S>` are covered by the `_from`/`_widen` lemmas
+  (`ExpPf.exp_total_from`, `powi_total_from`, `LogPf.log2_total_widen`, `ln_total_widen`, `C13.holds`).
+-/
+attribute [-instance] Monoid.toNPow
 namespace Sfx.C12
-theorem placeholder : True := trivial
+open Sfx.LogPf Sfx.ExpPf Sfx.TrigPf
+
+def Total {α : Type} (o : Outcome (Option α × Nat)) : Prop :=
+  match o with
+  | .ok _ dbg => dbg = false
+  | .panic => False
+
+/-- the supported destination types -/
+def Supp (D : Layout) : Prop := D.valid ∧ D.signed = true ∧ 23 ≤ D.f ∧ 9 ≤ D.intBits
+
+/-- sqrt, log2, ln, exp, pow, powi: for every operand of every supported type and every exponent (all integers, in particular all
+2^32 `i32` values incl. `i32::MIN`) -/
+def C12_result_functions : Prop :=
+  ∀ D : Layout, Supp D → ∀ x y : Int, inRange D x → inRange D y → ∀ n : Int,
+    Total (Trans.run (Trans.sqrt D D x)) ∧ Total (Trans.run (Trans.log2 D D x)) ∧ Total (Trans.run (Trans.ln D D x)) ∧
+    Total (Trans.run (Trans.exp D D x)) ∧ Total (Trans.run (Trans.pow D D x y)) ∧ Total (Trans.run (Trans.powi D D x n))
+
+theorem total_of_match {o : Outcome (Option Int × Nat)}
+    (h : match o with | .ok (_, _) dbg => dbg = false | .panic => False) : Total o := by
+  unfold Total; cases o with
+  | panic => exact h
+  | ok v d => obtain ⟨a, b⟩ := v; exact h
+
+theorem result_functions_hold : C12_result_functions := by
+  intro D ⟨hv, hs, hf, hint⟩ x y hx hy n
+  have hln : ∀ x, inRange D x → match Trans.run (Trans.ln D D x) with
+      | .ok (some r, _) dbg => dbg = false ∧ inRange D r | .ok (none, _) dbg => dbg = false | .panic => False := by
+    intro x hx
+    have h := ln_total D hv hs hf hint x hx
+    revert h
+    cases Trans.run (Trans.ln D D x) with
+    | panic => exact fun h => h
+    | ok v d =>
+      obtain ⟨o, it⟩ := v
+      cases o with
+      | none => exact fun h => h.1
+      | some r => exact fun h => ⟨h.1, h.2.2⟩
+  refine ⟨?_, ?_, ?_, total_of_match (exp_total D hv hs hf hint x hx), total_of_match (pow_total_of_ln D hv hs hf hint hln x y hx hy),
+    total_of_match (powi_total D hv hs hf hint x hx n)⟩
+  · have h := C13.holds D D ⟨hv, hv, by omega, by simp [hs]; omega, Or.inl rfl⟩ x hx
+    revert h; unfold Total
+    cases Trans.run (Trans.sqrt D D x) with
+    | panic => exact fun h => h
+    | ok v d => obtain ⟨o, it⟩ := v; cases o with
+      | none => exact fun h => h.1
+      | some r => exact fun h => h.1
+  · have h := log2_total D hv hs hf hint x hx
+    revert h; unfold Total
+    cases Trans.run (Trans.log2 D D x) with
+    | panic => exact fun h => h
+    | ok v d => obtain ⟨o, it⟩ := v; cases o with
+      | none => exact fun h => h.1
+      | some r => exact fun h => h.1
+  · have h := hln x hx
+    revert h; unfold Total
+    cases Trans.run (Trans.ln D D x) with
+    | panic => exact fun h => h
+    | ok v d => obtain ⟨o, it⟩ := v; cases o with
+      | none => exact fun h => h
+      | some r => exact fun h => h.1
+
+/-- `Err` is returned only for mathematically undefined requests or results that do not fit: log2/ln -/
+theorem log_err_only_when_undefined (D : Layout) (h : Supp D) (x : Int) (hx : inRange D x) (it : Nat) (dbg : Bool)
+    (he : Trans.run (Trans.log2 D D x) = .ok (none, it) dbg) :
+    x ≤ 0 ∨ (0 < x ∧ x < 2 ^ D.f ∧ ¬ inRange D (divSpec D.f (2 ^ D.f) x)) := by
+  obtain ⟨hv, hs, hf, hint⟩ := h
+  have := log2_total D hv hs hf hint x hx
+  rw [he] at this
+  exact this.2
+
+/-- the halving loop of log2 never exhausts the model's fuel and the whole call runs at most `width − 1` loop iterations (this is
+the fuel-sufficiency half of C17) -/
+theorem log2_iterations (D : Layout) (h : Supp D) (x : Int) (hx : inRange D x) (o : Option Int) (m : Nat) (dbg : Bool)
+    (he : Trans.run (Trans.log2 D D x) = .ok (o, m) dbg) : m ≤ D.n - 1 :=
+  (log2_ticks D h.1 h.2.1 h.2.2.2 x hx o m dbg he).1
+
+/-- sin: total for EVERY angle of every supported type (not only |x| ≤ 200); cos: for every angle of magnitude up to 200 (the
+unchecked `angle + π/2` needs room); both take at most 26 loop iterations and return a value of magnitude ≤ 3 -/
+theorem sin_cos_total (D : Layout) (h : Supp D) (a : Int) (ha : inRange D a) :
+    (∃ r it, Trans.run (Trans.sin D a) = .ok (some r, it) false ∧ it ≤ 26 ∧ -(3 * 2 ^ D.f) ≤ r ∧ r ≤ 3 * 2 ^ D.f) ∧
+    (-(200 * 2 ^ D.f) ≤ a → a ≤ 200 * 2 ^ D.f →
+      ∃ r it, Trans.run (Trans.cos D a) = .ok (some r, it) false ∧ it ≤ 26 ∧ -(3 * 2 ^ D.f) ≤ r ∧ r ≤ 3 * 2 ^ D.f) :=
+  ⟨sin_total D h.1 h.2.1 h.2.2.1 h.2.2.2 a ha, fun h1 h2 => cos_total_200 D h.1 h.2.1 h.2.2.1 h.2.2.2 a h1 h2⟩
+
+/-- tan for |x| ≤ 100 — PARTIAL: the two inner calls are total; `tan` itself panics exactly when the computed `1 + cos 2x` is zero and
+carries a debug-only overflow flag exactly when the quotient is not representable.  That neither happens wherever the TRUE tangent is at
+most 64 in magnitude needs the accuracy of `cos` (C16, unproved part): `1 + cos 2x ≥ 2/(1+64²) − 2^-16 > 0`.  The condition is sharp:
+`tan_panic_example` is an I9F23 angle 6·10^-6 below π/2 (true tangent ≈ 1.6·10^5) where the computed denominator is exactly zero. -/
+theorem tan_partial (D : Layout) (h : Supp D) (a : Int) (h1 : -(100 * 2 ^ D.f) ≤ a) (h2 : a ≤ 100 * 2 ^ D.f) :
+    ∃ (s c : Int) (ds dc : Nat),
+      Trans.run (Trans.sin D (2 * a)) = .ok (some s, ds) false ∧ Trans.run (Trans.cos D (2 * a)) = .ok (some c, dc) false ∧
+      (2 ^ D.f + c ≠ 0 → inRange D (divSpec D.f s (2 ^ D.f + c)) →
+        Trans.run (Trans.tan D a) = .ok (some (divSpec D.f s (2 ^ D.f + c)), ds + dc) false) := by
+  obtain ⟨s, c, ds, dc, hs, hc, _, _, _, _, h3⟩ := tan_total_of D h.1 h.2.1 h.2.2.1 h.2.2.2 a h1 h2
+  exact ⟨s, c, ds, dc, hs, hc, h3⟩
+
+/-- non-vacuity: I9F23, I32F32, I96F32 are supported; `MIN` is an operand -/
+example : Supp ⟨true, 32, 23⟩ ∧ Supp ⟨true, 64, 32⟩ ∧ Supp ⟨true, 128, 32⟩ ∧ inRange ⟨true, 64, 32⟩ (-(2 ^ 63)) := by
+  refine ⟨⟨by decide, rfl, by decide, by decide⟩, ⟨by decide, rfl, by decide, by decide⟩, ⟨by decide, rfl, by decide, by decide⟩, by decide⟩
+
 end Sfx.C12
